@@ -371,7 +371,7 @@ example (L : Libs) : readAll Fixes.all L true .fread (write exTable exLayout) = 
 
 namespace Ex2
 /-- one flat OPTIONAL INT32 column, one row group -/
-def schema : Schema.Node := .group ⟨"schema", none, none, 0, none⟩ [.leaf ⟨"a", some .optional, some 1, 0, none⟩]
+def schema : Schema.Node := .group ⟨"schema", none, none, 0, none, none⟩ [.leaf ⟨"a", some .optional, some 1, 0, none, none⟩]
 def leaf : LeafInfo := ⟨1, 0, .int32, 0, ["a"]⟩
 def es : List Entry := [⟨0, 1, some [7, 0, 0, 0]⟩, ⟨0, 0, none⟩, ⟨0, 1, some [9, 0, 0, 0]⟩, ⟨0, 1, some [7, 0, 0, 0]⟩]
 def table : File.Table := ⟨schema, [⟨[es]⟩]⟩
